@@ -46,6 +46,10 @@ type c07Scenario struct {
 	LagMin    int     `json:"lag_min"`
 	LagMax    int     `json:"lag_max"`
 	WriteMode string  `json:"write_sizes"`
+	HitDir    string  `json:"hit_direction,omitempty"` // script "exact": c2s | s2c
+	HitSeq    uint16  `json:"hit_seq,omitempty"`       // the packet whose exchange gets the fate
+	HitFate   string  `json:"hit_fate,omitempty"`      // query-lost | answer-lost | query-dup
+	HitTimes  int     `json:"hit_times,omitempty"`     // how many consecutive exchanges of that packet are hit (<=3)
 	Seed      int64   `json:"seed"`
 }
 
@@ -199,6 +203,7 @@ func c07Run(rec *vcommon.Rec, sc *c07Scenario) {
 	}
 	var phaseTransparent int32
 	var consecutiveLoss int
+	exactHits := 0
 	c2s := &c07Dir{name: "c2s", key: uint64(sc.Seed)*2 + 1, total: sc.BytesC2S}
 	s2c := &c07Dir{name: "s2c", key: uint64(sc.Seed)*2 + 2, total: sc.BytesS2C}
 	upFrag := int(s.client.Serializer.Upstream.FragmentSize)
@@ -224,6 +229,34 @@ func c07Run(rec *vcommon.Rec, sc *c07Scenario) {
 			return f, 0
 		}
 		switch sc.Script {
+		case "exact":
+			// the exchange that carries one particular packet gets one particular fate (the sequence
+			// number is read from the request itself / from the head of the server's queue: no estimate)
+			if exactHits < sc.HitTimes {
+				seq, has := -1, false
+				if sc.HitDir == "c2s" {
+					if req, err := s.user.Serializer.DecodeDnsRequest(commands.ComposeRequest(q, c07Domain)); err == nil {
+						if pr, ok := req.(*commands.PacketRequest); ok && pr.Packet != nil {
+							seq, has = int(pr.Packet.SeqNo), true
+						}
+					}
+				} else if ch := s.user.out.NextChunk(); ch != nil {
+					seq, has = int(ch.SeqNo), true
+				}
+				if has && seq == int(sc.HitSeq) {
+					exactHits++
+					rec.Stat("exact_hits", 1)
+					switch sc.HitFate {
+					case "query-lost":
+						return vQueryLost, 0
+					case "answer-lost":
+						return vAnswerLost, 0
+					case "query-dup":
+						return vQueryDup, 0
+					}
+				}
+			}
+			return vDelivered, 0
 		case "everyk":
 			if n%int64(sc.K) == int64(sc.K)-1 {
 				if (n/int64(sc.K))%2 == 0 {
@@ -505,6 +538,9 @@ func c07Scenarios(rec *vcommon.Rec) []*c07Scenario {
 	add := func(sc c07Scenario) {
 		sc.Seed = rec.Seed()*1000 + int64(len(out))
 		sc.Name = fmt.Sprintf("%02d-%s", len(out), sc.Script)
+		if sc.Script == "exact" {
+			sc.Name += fmt.Sprintf("-%s-%s-%d-x%d", sc.HitDir, sc.HitFate, sc.HitSeq, sc.HitTimes)
+		}
 		if sc.MaxBurst == 0 {
 			sc.MaxBurst = 3
 		}
@@ -544,6 +580,20 @@ func c07Scenarios(rec *vcommon.Rec) []*c07Scenario {
 	add(c07Scenario{Script: "random", PLostQ: 0.03, PLostA: 0.03, PDup: 0.03, Up: "Base64u", Down: "Raw", QType: uint16(util.QueryTypeNull), UpFrag: 90, DownFrag: 1000, BytesC2S: 300000, BytesS2C: 1500000, WriteMode: "mixed"})
 	add(c07Scenario{Script: "random", Full: true, PLostQ: 0.02, PLostA: 0.02, PDup: 0.02, BytesC2S: 300000, BytesS2C: 600000, WriteMode: "mixed"})
 	add(c07Scenario{Script: "transparent", Full: true, UpFrag: 5, DownFrag: 5, BytesC2S: 20000 * 5, BytesS2C: 20000 * 5})
+	// 7. one particular packet next to the 16-bit wrap gets one particular fate, in either direction
+	for _, dir := range []string{"c2s", "s2c"} {
+		for _, fate := range []string{"answer-lost", "query-dup", "query-lost"} {
+			for _, seq := range []uint16{65534, 65535, 0, 1} {
+				for _, times := range []int{1, 3} {
+					if times == 3 && !(seq == 65535 || seq == 0) {
+						continue
+					}
+					add(c07Scenario{Script: "exact", HitDir: dir, HitFate: fate, HitSeq: seq, HitTimes: times, UpFrag: 5, DownFrag: 5,
+						StartC2S: 65530, StartS2C: 65530, BytesC2S: 40 * 5, BytesS2C: 40 * 5})
+				}
+			}
+		}
+	}
 	if rec.Thorough() {
 		codecs := []string{"Base32", "Base64", "Base64u", "Base85", "Base91", "Base128"}
 		downs := []string{"Base32", "Base64", "Base64u", "Base85", "Base91", "Base128", "Raw"}
